@@ -260,6 +260,15 @@ fn judge_ps_frame(cfg: &Cfg, frame: &[u8], what: &str, order: (u64, u64), t: &mu
     let m = parse_movie(&ex.bytes, "prog");
     let mut issues: Issues = m.probs.of(&[Class::Spec]).into_iter().map(|p| (p.sig.clone(), p.detail.clone())).collect();
     issues.extend(value_checks(&m, "prog", cfg.width, cfg.height, 1000, 90000));
+    // avcC: AVCProfileIndication, profile_compatibility and AVCLevelIndication are bytes 1-3 of
+    // the SPS the record carries (ISO/IEC 14496-15 5.3.3.1.2)
+    if let Some(oracle::reader::CodecCfg::Avc { profile, compat, level, sps, .. }) = m.video().and_then(|t| t.entry.as_ref()).map(|e| e.cfg.clone()) {
+        if let Some(s0) = sps.first() {
+            if s0.len() >= 4 && (profile, compat, level) != (s0[1], s0[2], s0[3]) {
+                issues.push(("prog/avcC/profile-level-fields".into(), format!("record says {profile:#04x}/{compat:#04x}/{level:#04x}, its SPS starts {:02x?}", &s0[..4])));
+            }
+        }
+    }
     for (s, d) in issues {
         t.violation(&format!("C19/{s}"), order, || format!("{what} (fast start {}): {d}", cfg.fast_start), case);
     }
@@ -285,6 +294,12 @@ fn judge_ps_headers(order: (u64, u64), t: &mut Tally) {
             pps[0] = pps_h;
             run(VCodec::H264, vec![sps, pps, vec![0x65, 0x88, 0x84]], format!("H.264 SPS header {sps_h:#04x} PPS header {pps_h:#04x}"), t);
         }
+    }
+    // SPS of 1..=6 bytes with a profile / compatibility / level triple other than the usual
+    // defaults: the three bytes of the record mirror SPS bytes 1-3 whenever the SPS has them
+    for len in 1..=6usize {
+        let sps: Vec<u8> = [0x67u8, 0x64, 0x0c, 0x28, 0xac, 0x2b][..len].to_vec();
+        run(VCodec::H264, vec![sps, h264_pps(0), vec![0x65, 0x88, 0x84]], format!("H.264 SPS of {len} bytes (High profile, level 4.0)"), t);
     }
     // (first byte OR-mask, second byte): forbidden bit, nuh_layer_id high bit, layer id low bits, temporal id
     let variants: [(u8, u8); 6] = [(0x00, 0x01), (0x80, 0x01), (0x01, 0x01), (0x00, 0x09), (0x00, 0x02), (0x81, 0xff)];
@@ -386,7 +401,7 @@ pub fn check(ctx: &Ctx) -> i32 {
         &tally,
         Meta {
             level: "exploration",
-            rule: format!("{np} progressive files: the configuration space (4 codecs x {{none, 6 AAC profiles, Opus}} x fast start on/off x 5 metadata shapes) x dimensions {{320x240, 1920x1080, 4096x2160, 65535x65535}} x {{0, 1, 3}} frames{}, plus channels 1-8 (Opus also 9, 16, 255) x the standard sample rates below 65536 Hz for every audio kind; {nf} fragmented configurations (4 codecs x builder/FragmentConfig x dimensions x timescales x start DTS) with their init segment and two media segments. Every fixed-layout header box and configuration record is decoded field by field from ISO/IEC 14496-12/-14/-15 and the AV1 / VP9 / Opus bindings (size, version, flags, reserved bits) av1C bit positions are checked with eleven sequence headers that set every field of its two packed bytes differently, each in four OBU framings (plain, extension byte, two-byte LEB128 size, payload padded to 130 bytes) (four with 2-4 operating points whose later points carry another level and the opposite tier); and the configured dimensions, timescales, enabled flags, identity matrices, handler types and track IDs are recovered. H.264 / H.265 first keyframes whose parameter-set units carry every header-bit variant (nal_ref_idc 0-3, forbidden bit, H.265 layer-id and temporal-id bits; 20 + 67 combinations x both layouts) are muxed and their avcC / hvcC records decoded the same way. Distinct by the reader-reduced moov.", if ctx.thorough { "" } else { " (metadata variants thinned in the quick tier)" }),
+            rule: format!("{np} progressive files: the configuration space (4 codecs x {{none, 6 AAC profiles, Opus}} x fast start on/off x 5 metadata shapes) x dimensions {{320x240, 1920x1080, 4096x2160, 65535x65535}} x {{0, 1, 3}} frames{}, plus channels 1-8 (Opus also 9, 16, 255) x the standard sample rates below 65536 Hz for every audio kind; {nf} fragmented configurations (4 codecs x builder/FragmentConfig x dimensions x timescales x start DTS) with their init segment and two media segments. Every fixed-layout header box and configuration record is decoded field by field from ISO/IEC 14496-12/-14/-15 and the AV1 / VP9 / Opus bindings (size, version, flags, reserved bits) av1C bit positions are checked with eleven sequence headers that set every field of its two packed bytes differently, each in four OBU framings (plain, extension byte, two-byte LEB128 size, payload padded to 130 bytes) (four with 2-4 operating points whose later points carry another level and the opposite tier); and the configured dimensions, timescales, enabled flags, identity matrices, handler types and track IDs are recovered. H.264 / H.265 first keyframes whose parameter-set units carry every header-bit variant (nal_ref_idc 0-3, forbidden bit, H.265 layer-id and temporal-id bits; 20 + 67 combinations, and H.264 SPS of 1..6 bytes, x both layouts) are muxed and their avcC / hvcC records decoded the same way. Distinct by the reader-reduced moov.", if ctx.thorough { "" } else { " (metadata variants thinned in the quick tier)" }),
             bound: "configuration space as listed; 0/1/3 frames".into(),
             exhaustive: true,
             assumptions: vec!["the reader's field decoders are written from the specifications and are the trusted base".into(), "the optional High-profile extension of avcC is not demanded".into(), "for init segments the movie timescale is compared with the fragment timescale".into()],
